@@ -80,6 +80,10 @@ func (e *Evaluator) handleIdentifier(
 		return
 	}
 
+	if id == "" {
+		return
+	}
+
 	switch rune(id[0]) {
 	case '@':
 		valueT =
